@@ -245,9 +245,26 @@ LoopBoxes:
 	return f, nil
 }
 
-// Size - total size of all boxes
+// Size - total size of all boxes that Encode writes.
+// A fragmented file in EncModeSegment is written as init segment, sidx boxes, media segments and mfra
+// (other top-level boxes are not written), and is sized accordingly.
 func (f *File) Size() uint64 {
 	var totSize uint64 = 0
+	if f.isFragmented && f.FragEncMode == EncModeSegment {
+		if f.Init != nil {
+			totSize += f.Init.Size()
+		}
+		for _, sidx := range f.Sidxs {
+			totSize += sidx.Size()
+		}
+		for _, seg := range f.Segments {
+			totSize += seg.Size()
+		}
+		if f.Mfra != nil {
+			totSize += f.Mfra.Size()
+		}
+		return totSize
+	}
 	for _, f := range f.Children {
 		totSize += f.Size()
 	}
